@@ -152,7 +152,7 @@ fn run(c: &RwCase, obs: &mut Obs) -> Result<(), String> {
     let mut changed = 0;
     // ExtractionSubst builds a whole Extractor per substitution: bound the e-graph by size, not by time
     let heavy = c.extraction_subst && c.rules.iter().any(|i| pool[*i % pool.len()].has_subst);
-    let node_limit = if heavy { 150 } else { 400 };
+    let node_limit = if heavy { 120 } else { 250 };
     let iters = if heavy { c.iters.min(2) } else { c.iters };
     if std::env::var("VERIF_DEBUG").is_ok() {
         let mut eg2: EGraph<Fp> = crate::mixed::new_egraph((), c.extraction_subst);
@@ -295,7 +295,7 @@ fn strategy(max_iters: u8) -> BoxedStrategy<RwCase> {
 }
 
 pub fn property(tier: Tier) -> Property {
-    let max_iters = tier.pick(4, 5);
+    let max_iters = tier.pick(4, 4);
     let stages: Vec<Box<dyn DynStage>> = vec![Box::new(Stage {
         name: "rewrite-fp",
         source: random(move || strategy(max_iters), tier.pick(4000, 80_000)),
